@@ -369,11 +369,12 @@ fn history_inputs(t: &mut Tape, cfg: &crate::cfggen::CfgInfo) -> Vec<(String, St
     pool.push(("function broken( {".to_string(), "/app/src/broken.js".to_string()));
     pool.push(("var a = 'only literals' + 'here';\n".to_string(), "/app/src/plain.js".to_string()));
     for prefix in ["test", "abcdef", "x", "Z9_$"] {
-        pool.push((format!("function f(a, b) {{ const __datadog_{prefix}_0 = a; return a + b + `${{a}}`.trim(); }}\n"), format!("/app/src/clash_{}.js", prefix.len())));
+        // (the refused files hold string literals of reportable length: nothing collected for them may show up later)
+        pool.push((format!("var leftover = 'a literal of a refused file';\nfunction f(a, b) {{ const __datadog_{prefix}_0 = a; return a + b + `${{a}}`.trim() + 'another literal of that file'; }}\n"), format!("/app/src/clash_{}.js", prefix.len())));
     }
     // refused only by the per-block check (a mere reference, after temporaries have been handed out in that block)
     for prefix in ["test", "abcdef", ""] {
-        pool.push((format!("function f(a, b) {{ return __datadog_{prefix}_7 + a() + b() + a.trim(b(), a()); }}\n"), format!("/app/src/clashref_{}.js", prefix.len())));
+        pool.push((format!("function f(a, b) {{ return __datadog_{prefix}_7 + a() + b() + a.trim(b(), a()) + 'a literal behind a reserved name'; }}\n"), format!("/app/src/clashref_{}.js", prefix.len())));
         pool.push((format!("function f(a, b) {{ const k = a() + b() + `${{a()}}${{b()}}`; {{ label: {{ k.trim(__datadog_{prefix}_1); }} }} return k; }}\n"), format!("/app/src/clashnested_{}.js", prefix.len())));
     }
     // two reference comments attached to different tokens (different maps): which one is used must not depend on the call
